@@ -149,8 +149,16 @@ def check(ctx, run):
     # ---- R3 expected shortfall
     fi = E.functional(ctx, "expected_shortfall")
     A = SampleAlgebra(assume_positive={"p"})
-    got = A.conv(one(ctx, fi, [], dict(input=x, p=p_, dim=0))[0]["value"])
-    ident(run, prog, "C05.R3", fi, "expected_shortfall(dim=0)", got, -KMEAN_S(xi, CEIL(A.sym("p") * Nn)), "differs from minus the mean of the ceil(pN) smallest outcomes")
+    es_paths = one(ctx, fi, [], dict(input=x, p=p_, dim=0), n=None)
+    if not es_paths:
+        raise AnalysisError("expected_shortfall: no analysable path")
+    for r_es in es_paths:  # a shortcut taken for some quantile levels only (p > 1/2, ...) is a path of its own and must meet the definition too
+        tag = "" if len(es_paths) == 1 else " [" + ",".join(f"{str(c_)[:30]}={d_}" for c_, d_, _ in r_es["cond"]) + "]"
+        try:
+            got = A.conv(r_es["value"])
+        except (NotImplementedError, TypeError) as ex:
+            got = sp.Symbol("NOT_ANALYSABLE_" + str(ex)[:20].replace(" ", "_"))
+        ident(run, prog, "C05.R3", fi, "expected_shortfall(dim=0)" + tag, got, -KMEAN_S(xi, CEIL(A.sym("p") * Nn)), "differs from minus the mean of the ceil(pN) smallest outcomes")
     bad_dims = [(op, d) for op, d in A.dims_seen if d != 0]
     run.oblige("C05.R3", "expected_shortfall reduces along the requested dim", not bad_dims, str(A.dims_seen))
     if bad_dims:
